@@ -699,7 +699,10 @@ func (c *checker) checkEmittersFlow(x *execRun, who string, task map[int]*span, 
 	for k := 0; k < f.Emitters; k++ {
 		c.checkDirectiveEvents(x, who, k, f.InstrFlow)
 		if x.prog.AutoInstr {
-			continue // task names carry source lines; only directive-level and stack checks apply
+			// -auto-instrument names tasks "<file>.<line>" by a rule that is not
+			// part of the property; without a trustworthy name->task mapping only
+			// the directive-level protocol and stack equality are judged here.
+			continue
 		}
 		for id, t := range byID {
 			if !t.Instr {
@@ -751,10 +754,8 @@ func (c *checker) checkPar(x *execRun) {
 		case EvElemStart:
 			elems[e.ID] = append(elems[e.ID], &elemCall{ord: e.Ord, a: e.A, b: e.B, start: e.Seq})
 		case EvElemEnd:
-			for _, ec := range elems[e.ID] {
-				if ec.ord == e.Ord {
-					ec.end = e.Seq
-				}
+			if l := elems[e.ID]; e.Ord < len(l) && l[e.Ord].ord == e.Ord {
+				l[e.Ord].end = e.Seq
 			}
 		case EvEndStart:
 			s := endHook[e.ID]
